@@ -213,6 +213,10 @@ impl<B> Call<WithoutBody, B> {
 
         self.state.skip_method_body_check = true;
 
+        // Same default as Call::with_body(): unless the request headers
+        // say content-length, the body is sent chunked.
+        self.state.writer = BodyWriter::new_chunked();
+
         Call {
             request: self.request,
             analyzed: self.analyzed,
